@@ -300,11 +300,14 @@ class ReachingDefs:
                 names = set(self.params)
             gen[n] = {(x, n) for x in names}
             kill_names[n] = names
+        live = reachable_from(g, g.entry)       # statements after an unconditional jump define nothing that reaches anything
         self.IN: Dict[int, Set[Tuple[str, int]]] = {n: set() for n in g.nodes()}
-        self.OUT: Dict[int, Set[Tuple[str, int]]] = {n: set(gen[n]) for n in g.nodes()}
-        work = list(g.nodes())
+        self.OUT: Dict[int, Set[Tuple[str, int]]] = {n: (set(gen[n]) if n in live else set()) for n in g.nodes()}
+        work = [n for n in g.nodes() if n in live]
         while work:
             n = work.pop()
+            if n not in live:
+                continue
             new_in = set()
             for p, _ in g.pred[n]:
                 new_in |= self.OUT[p]
@@ -360,8 +363,9 @@ def eval3(e: ast.AST, val: Callable[[ast.AST], Optional[bool]]):
 
 
 def reach_under(g: CFG, val: Callable[[ast.AST], Optional[bool]], start: Optional[int] = None,
-                avoid: Iterable[int] = (), no_iter: Iterable[int] = ()) -> Set[int]:
-    """Nodes reachable from ENTRY when every branch whose test is decided by `val` is taken that way only."""
+                avoid: Iterable[int] = (), no_iter: Iterable[int] = (), edges: Optional[Set[Tuple[int, int]]] = None) -> Set[int]:
+    """Nodes reachable from ENTRY when every branch whose test is decided by `val` is taken that way only (`edges`, when given,
+    receives the (from, to) pairs that were followed)."""
     seen: Set[int] = set()
     avoid = set(avoid)
     stack = [g.entry if start is None else start]
@@ -387,6 +391,8 @@ def reach_under(g: CFG, val: Callable[[ast.AST], Optional[bool]], start: Optiona
                     continue
                 if bv is False and l == "ok":
                     continue
+            if edges is not None and m not in avoid:
+                edges.add((n, m))
             stack.append(m)
     return seen
 
